@@ -35,7 +35,7 @@ def gen_cases(ctx):
             mode = rng.choice(["c2", "stream", "mt"])
         elif k == 1:
             kind, x = datagen.gen(rng, 200000); p = frames.param_vector(rng, True, allow_fmt=False); mode = "stream"
-        elif k == 2:
+        elif k == 2 and i % 100 != 2:
             kind, x = datagen.gen(rng, 400000); p = frames.param_vector(rng, True, allow_fmt=False); mode = "mt"
         elif k == 3 and i % 10 == 3:
             sel = (i // 10) % 4
@@ -133,7 +133,7 @@ def line_for(rng, c):
     if c["mode"] == "c2":
         return "comp2 c2 %s %s%s" % (ps, xs, dd)
     if c["mode"] == "mtlevel":
-        return "cstream %s %s %s 10000000 %s" % (ps, xs, rng.choice(["300000", "1000000", "100000,700000"]), rng.choice(["cccuc", "ccccccccuc", "cuc", "cccccuccccwc"]))
+        return "cstream %s %s %s 10000000 %s" % ((ps, xs) + datagen.mtlevel_dirs(rng))
     ins = ",".join(str(rng.choice([1, 7, 100, 4096, 65536, 131072, 200000, 1000000])) for _ in range(rng.randint(1, 4)))
     outs = ",".join(str(rng.choice([1, 50, 4096, 131072, 1000000])) for _ in range(rng.randint(1, 3)))
     dirs = "".join(rng.choice("cccfe") for _ in range(rng.randint(1, 6)))
